@@ -544,7 +544,9 @@ struct Counters { seqsweep: usize, own: usize, foreign: usize, mutated: usize, t
 fn valid_response(rng: &mut Rng, c: &Cell) -> (RCfg, Vec<u8>, Option<IpAddr>, String, Offs, Vec<u8>, Peer, Ident) {
     let rc = rand_rcfg(rng, c);
     let tid = 1 + rng.below(65535) as u16;
-    let initseq = *rng.pick(&[33434u16, 33434, 0, 1, 64511, 60000]);
+    let mut initseq = *rng.pick(&[33434u16, 33434, 0, 1, 64511, 60000]);
+    // only initial sequences the REAL builder accepts for this cell (it refuses 0 for Paris over IPv6)
+    if strat_cfg(c, &rc, tid, initseq).build().is_err() { initseq = 1; }
     let span = if c.v6 && c.proto == Protocol::Udp && c.strat == MultipathStrategy::Dublin { 512 } else { 1024 };
     let seq = if rng.chance(1, 6) { initseq } else { initseq.saturating_add(rng.below(span) as u16).min(65534) };
     let id = ident(c, tid, initseq, seq);
@@ -559,6 +561,50 @@ fn valid_response(rng: &mut Rng, c: &Cell) -> (RCfg, Vec<u8>, Option<IpAddr>, St
 }
 
 const BOUNDARY16: [u16; 14] = [0, 1, 2, 3, 4, 5, 6, 7, 8, 9, 13, 14, 1024, 65535];
+
+
+// ------------------------------------------------------------------ unprivileged UDP: the kernel builds the headers
+/// does the real `Builder::build` accept this UDP cell in unprivileged mode?
+fn builder_accepts_unprivileged(c: &Cell) -> bool {
+    let target = addr_from(&if c.v6 { vec![0x20, 1, 0x0d, 0xb8, 0, 0, 0, 0, 0, 0, 0, 0, 0, 0, 0, 2] } else { vec![10, 0, 0, 2] });
+    trippy_core::Builder::new(target)
+        .privilege_mode(PrivilegeMode::Unprivileged)
+        .protocol(c.proto)
+        .multipath_strategy(c.strat)
+        .port_direction(c.pd)
+        .build()
+        .is_ok()
+}
+/// run the real unprivileged dispatch and let a simulated kernel assemble the datagram from what the datagram
+/// socket was given: bind port, destination port, ttl / hop limit, tos, payload (checksum computed, IP id the kernel's)
+#[allow(clippy::too_many_arguments)]
+fn unprivileged_dgram(rc: &RCfg, id: &Ident, size: u16, tos: u8, ttl: u8, kernel_ipid: u16, flow: u32) -> Option<Vec<u8>> {
+    let r = catch_unwind(AssertUnwindSafe(|| {
+        sim::reset();
+        let mut ch = Channel::<SimSocket>::connect(&rc.channel_config(size, tos, id.initseq)).ok()?;
+        ch.send_probe(Probe {
+            sequence: Sequence(id.seq), identifier: TraceId(id.tid), src_port: Port(id.sp), dest_port: Port(id.dp), ttl: TimeToLive(ttl),
+            round: RoundId(0), sent: std::time::SystemTime::UNIX_EPOCH, flags: Flags::from_bits_truncate(u32::from(id.flags)),
+        }).ok()?;
+        sim::with(|w| {
+            let (sock, payload, remote) = w.ops.iter().rev().find_map(|o| if let Op::SendTo(s, b, a) = o { Some((*s, b.clone(), *a)) } else { None })?;
+            let local = w.ops.iter().find_map(|o| match o { Op::Bind(s, a) if *s == sock => Some(*a), _ => None })?;
+            let hops = w.ops.iter().find_map(|o| match o {
+                Op::SetTtl(s, v) if *s == sock => Some(*v as u8),
+                Op::SetUnicastHopsV6(s, v) if *s == sock => Some(*v),
+                _ => None,
+            })?;
+            Some((local, remote, hops, payload))
+        })
+    }));
+    let (local, remote, hops, payload) = r.ok()??;
+    let src = addr_bytes(local.ip());
+    let dst = addr_bytes(remote.ip());
+    let u = udp(local.port(), remote.port(), None, &payload, &src, &dst);
+    let mut v = if rc.v6() { ip6_hdr(0, flow, u.len() as u16, 17, hops, &src, &dst) } else { ip4_hdr(tos, (20 + u.len()) as u16, kernel_ipid, hops, 17, &src, &dst, &[]) };
+    v.extend(u);
+    Some(v)
+}
 
 pub fn run(args: &Args, out: &mut Out) {
     if let Some(path) = &args.replay {
@@ -668,13 +714,16 @@ pub fn run(args: &Args, out: &mut Out) {
                 dst: addr_from(&if c.v6 { vec![0x20, 1, 0x0d, 0xb8, 0, 0, 0, 0, 0, 0, 0, 0, 0, 0, 0, 2] } else { vec![10, 0, 0, 2] }), pattern: 0 };
             let router = if c.v6 { vec![0x20, 1, 0x0d, 0xb8, 0, 0, 0, 0, 0, 0, 0, 0, 0, 0, 0, 9] } else { vec![10, 0, 0, 9] };
             let dublin6 = c.v6 && c.proto == Protocol::Udp && c.strat == MultipathStrategy::Dublin;
-            let initseq: u16 = if dublin6 { 33434 } else { 0 };
+            let mut initseq: u16 = if dublin6 { 33434 } else { 0 };
+            // only initial sequences the REAL builder accepts for this cell (it refuses 0 for Paris over IPv6)
+            if strat_cfg(c, &rc, 4660, initseq).build().is_err() { initseq = 1; }
             let seqs: Vec<u16> = if dublin6 {
                 if thorough { (33434..=33434 + 940).collect() } else { vec![33434, 33435, 33434 + 255, 33434 + 256, 33434 + 940] }
             } else if thorough { (0..=65534).collect() } else { boundary.clone() };
             let sc = strat_cfg(c, &rc, 4660, initseq).render();
             let iph = if c.v6 { 40 } else { 20 };
             for seq in seqs {
+                if seq < initseq { continue; }
                 let id = ident(c, 4660, initseq, seq);
                 let d = probe_dgram(c, &rc, &id, 1, 0, iph + 8, &mut rng);
                 let peer = Peer { router: router.clone(), du_code: None, n: if c.v6 { d.len() } else { 28 }, ttl2: 1, tos2: 0, ext: ExtForm::Absent, outer_opt_words: 0 };
@@ -683,6 +732,33 @@ pub fn run(args: &Args, out: &mut Out) {
                 k.seqsweep += 1;
             }
         }
+    }
+
+    // ---- (i-c) unprivileged UDP, every cell the REAL builder accepts in that mode: the real non-raw dispatch, a kernel that
+    //      builds the headers, a conforming router.  (Classic carries the sequence in a port; Paris / Dublin cannot carry it.)
+    {
+        let reps = if thorough { 60 } else { 8 };
+        let mut n = 0usize;
+        for c in all.iter().filter(|c| c.proto == Protocol::Udp) {
+            if !builder_accepts_unprivileged(c) { continue; }
+            for _ in 0..reps {
+                let mut rc = rand_rcfg(&mut rng, c);
+                rc.privileged = false;
+                let tid = 1 + rng.below(65535) as u16;
+                let initseq = *rng.pick(&[33434u16, 33434, 1, 60000]);
+                let seq = initseq + rng.below(500) as u16;
+                let id = ident(c, tid, initseq, seq);
+                let iph = if c.v6 { 40 } else { 20 };
+                let size = *rng.pick(&[iph + 8, iph + 9, 84, 200]) as u16;
+                let Some(d) = unprivileged_dgram(&rc, &id, size, *rng.pick(&[0u8, 0x10]), *rng.pick(&[1u8, 2, 30]), rng.next() as u16, rng.below(1 << 20) as u32) else { continue };
+                let peer = rand_peer(&mut rng, c, &rc, d.len());
+                let (b, _) = quote(c.v6, &addr_bytes(rc.src), &peer, &d);
+                let from = if c.v6 { Some(addr_from(&peer.router)) } else { None };
+                recv_case(&rc, from, &b, &format!("own={}={}", strat_cfg(c, &rc, tid, initseq).render(), seq), out);
+                n += 1;
+            }
+        }
+        out.stat("unprivileged_udp_roundtrips", &n.to_string());
     }
 
     // ---- (ii) fully random bytes (random lengths, plus ICMP-looking prefixes)
